@@ -6,7 +6,7 @@ from symx.run import Case
 PROPERTY = "C15"
 META = dict(
     level="model_checking",
-    bounds="all write sequences of length <= 3 (quick) / <= 4 (thorough) over a menu of 12 write operations on a 3x3 container, plus every history of length <= 2 that involves a slice key (6 further slice forms: open-ended, negative, int row with slice columns) on 3x3, 2x4 and 4x2 containers (dense 2-D blocks by index "
+    bounds="all write sequences of length <= 3 (quick) / <= 4 (thorough) over a menu of 13 write operations on a 3x3 container, plus every history of length <= 2 that involves a slice key (6 further slice forms: open-ended, negative, int row with slice columns) on 3x3, 2x4 and 4x2 containers (dense 2-D blocks by index "
            "arrays / slices / ints, 1-D row, scalar, repeated indices, scipy-sparse value, nested CooMatrix with its own writes, None, and three kinds of "
            "inconsistent block shapes), with SYMBOLIC block values; after every write all conversions (toarray, tocoo, tocsr, tocsc, asformat) are compared "
            "with the dense accumulation.  The property's 'length 0..40' is cut: each write is independent of the container's content (argued, not proved).",
@@ -17,7 +17,7 @@ META = dict(
 
 SHAPES = [(3, 3), (2, 4), (4, 2)]
 
-MENU = ["dense22", "slice22", "row13", "scalar", "dup_rows", "full_slice", "sparse22", "nested22", "none", "bad_shape_23", "bad_col_vec", "bad_nested"]
+MENU = ["dense22", "slice22", "row13", "scalar", "dup_rows", "full_slice", "sparse22", "nested22", "none", "bad_shape_23", "bad_col_vec", "bad_nested", "bad_same_size"]
 MENU_SLICES = ["slice22", "full_slice", "open_slices", "neg_slices", "int_row_slice_cols", "dense22"]
 
 
@@ -86,6 +86,9 @@ def _apply(h, coo, ref, op, k):
         val, key, blocks = None, (np.array([0, 1]), np.array([0, 1])), []
     elif op == "bad_shape_23":
         val, key, blocks, bad = v("a", 2, 3), (np.array([0, 1]), np.array([0, 1])), [], True
+    elif op == "bad_same_size":
+        # inconsistent shape with the RIGHT number of entries: a 1x4 row for a 2x2 index set
+        val, key, blocks, bad = v("a", 1, 4), (np.array([0, 1]), np.array([0, 1])), [], True
     elif op == "bad_col_vec":
         val, key, blocks, bad = v("a", M), (np.arange(M), 1), [], True
     elif op == "bad_nested":
